@@ -197,6 +197,36 @@ def run(ctx):
         ctx.check(bad is None, "C01:inverse:%s.form_a_mat_inv" % short,
                   "form_a_mat_inv(cell) . form_a_mat(cell) is not the identity: entry (%s, %s) is %s (e.g. %s at the cell %s)"
                   % ((bad[0], bad[1], bad[2], "%.6g" % bad[3]["left"], sorted(bad[3]["at"].items())) if bad else ("", "", "", "", "")), core.loc(mod, fn))
+        # ---- special values: numbers the code looks up in a table of constants (closed-form trigonometry at 30, 45, ... degrees):
+        # the generic cell above is none of them; each tabulated value is replayed on the cell entry it was looked up for and
+        # must give what the general formulas give there
+        from xfabsa.objeval import NUMERIC_CASES
+        from xfabsa.symeval import deep_subs
+        cases = []
+        for keytxt, consts in list(NUMERIC_CASES):
+            for i in range(6):
+                if keytxt == Rat.atom("%s[%d]" % (uc.base, i)).key():
+                    cases += [(i, c_) for c_ in consts if (i, c_) not in cases]
+        ctx.rule("special", "a cell entry equal to a constant the code tabulates gives the value of the general formula at that entry")
+        hkl_s = sym_array("hkl", (3,))
+        for slot, const in cases:
+            atom = "%s[%d]" % (uc.base, slot)
+            ucs = materialise(uc)
+            ucs.data[slot] = Rat.const(const)
+            badf = []
+            for fname, extra in (("cell_volume", []), ("form_a_mat", []), ("form_b_mat", []), ("cell_invert", []), ("sintl", [hkl_s]), ("form_a_mat_inv", [])):
+                gen = fresh().call_function(fname, [uc] + extra)
+                spe = fresh().call_function(fname, [ucs.copy()] + extra)
+
+                def flat_(v_):
+                    A_ = v_ if isinstance(v_, Arr) else materialise(v_) if isinstance(v_, (list, tuple, Opaque)) else None
+                    return [scalar(x_) for x_ in A_.flat()] if A_ is not None else [scalar(v_)]
+                g_, s_ = flat_(gen), flat_(spe)
+                if len(g_) != len(s_) or not all(N.rat_equal(y_, deep_subs(x_, {atom: Rat.const(const)})) for x_, y_ in zip(g_, s_)):
+                    badf.append(fname)
+            ctx.check(not badf, "C01:special:%s:%s=%s" % (short, atom, const),
+                      "with %s = %s (a value the code treats specially) %s differ from their general formulas evaluated at that value"
+                      % (atom, const, ", ".join(badf)), core.loc(mod, mod.func(badf[0])) if badf else mod.rel)
     ctx.not_decided += ["floating-point error of the round trips (arccos near +-1, inv of an ill-conditioned A)",
                         "the conditioning bound (Gram determinant >= 0.02) is not turned into an error bound"]
     ctx.assumptions += ["numpy's cos, sin, sqrt, arccos, dot, transpose, linalg.inv compute what their names say",
